@@ -9,7 +9,39 @@ REPO = "/repo"
 def sh(cmd, **kw):
     return subprocess.run(cmd, shell=True, stdout=subprocess.PIPE, stderr=subprocess.STDOUT, text=True, **kw)
 
+def scratch_main(dirs):
+    """Same, but on a scratch worktree of /repo's HEAD (used while other work needs /repo untouched)."""
+    rc_all = 0
+    wt, bd = "/tmp/seedrun-wt", "/tmp/seedrun-build"
+    for d in dirs:
+        d = os.path.abspath(d)
+        meta = json.load(open(os.path.join(d, "meta.json")))
+        props = meta["property"] if isinstance(meta["property"], list) else [meta["property"]]
+        sh("git -C %s worktree remove --force %s" % (REPO, wt)); sh("rm -rf %s %s" % (wt, bd))
+        a = sh("git -C %s worktree add -q %s HEAD && git -C %s apply %s" % (REPO, wt, wt, os.path.join(d, "patch.diff")))
+        if a.returncode != 0:
+            print("patch does not apply:", a.stdout); rc_all = 2; continue
+        results = {}
+        env = dict(os.environ, VERIF_REPO=wt, VERIF_BUILD=bd)
+        try:
+            for p in props:
+                t0 = time.time()
+                r = sh("./check %s --tier quick" % p, cwd=V, env=env)
+                vio = [l for l in r.stdout.splitlines() if l.startswith("VIOLATION")]
+                results[p] = {"exit": r.returncode, "violation_lines": vio, "tail": r.stdout.splitlines()[-3:],
+                              "wall_s": round(time.time() - t0, 1), "on": "scratch worktree of /repo HEAD with the patch applied"}
+                print(os.path.basename(d), p, "exit", r.returncode, vio[:1])
+        finally:
+            sh("git -C %s worktree remove --force %s" % (REPO, wt)); sh("rm -rf %s %s" % (wt, bd))
+        json.dump({"checked_at": time.strftime("%Y-%m-%dT%H:%M:%S"), "results": results},
+                  open(os.path.join(d, "result.json"), "w"), indent=1)
+        if not all(r["exit"] == 1 and r["violation_lines"] for r in results.values()):
+            rc_all = max(rc_all, 1)
+    sys.exit(rc_all)
+
 def main():
+    if len(sys.argv) > 1 and sys.argv[1] == "--scratch":
+        scratch_main(sys.argv[2:])
     rc_all = 0
     for d in sys.argv[1:]:
         d = os.path.abspath(d)
